@@ -99,6 +99,28 @@ def eps_family(kmax):
     return out
 
 
+EPS_LEAVES = [("ret",), ("elide",), ("assert", "1"), ("pred", "1"), ("rename", "n1"), ("mark", "1")]
+
+
+def epskinds_family(kmax):
+    """Every kind of empty-word operator (return, elision, assertion, predicate, rename, marker) at every
+    position of every enumerated body, the body being a NON-start rule used in a loop: `s: x* D; x: <body>;`
+    (return and elision are not allowed in the start rule)."""
+    out = []
+    for leaf in EPS_LEAVES:
+        for tot in range(2, kmax + 1):
+            for g in G.enum_grammars(tot, 1, 2, extra_leaves=[leaf]):
+                body = g["rules"][0]["body"]
+                if not any(l[0] == leaf[0] for l in G.leaves_of(body)):
+                    continue
+                toks = [t["name"] for t in g["tokens"]] + ["D"]
+                g2 = G.mk("epsk_%s_%s" % (leaf[0], g["name"]), toks,
+                          [("s", ("cat", [("star", ("ref", "x")), ("tok", "D")])), ("x", body)])
+                if productive_and_reachable(g2):
+                    out.append(g2)
+    return out
+
+
 PRATT_POOL = {
     "add": ("cat", [("ref", "e"), ("tok", "P"), ("ref", "e")]),
     "mul": ("cat", [("ref", "e"), ("tok", "M"), ("ref", "e")]),
@@ -188,6 +210,11 @@ def pred_family():
         "g_nullable_plus": cat(("plus", par(cat(P("1"), ("opt", T("A")), ("opt", T("C"))))), T("B")),
         "g_paren": par(alt(par(cat(P("1"), T("A"), T("B"))), cat(T("A"), T("C")))),
         "three": par(alt(cat(T("A"), T("B")), cat(T("C"), T("B")), cat(T("A"), T("C")))),
+        "g_last_of_three": par(alt(cat(T("A"), T("B")), cat(T("C"), T("B")), cat(P("1"), T("A"), T("C")))),
+        "g_mid_of_three": par(alt(cat(T("A"), T("B")), cat(P("1"), T("A"), T("C")), cat(T("A"), T("D")))),
+        "g_first_of_three": par(alt(cat(P("1"), T("A"), T("B")), cat(T("A"), T("C")), cat(T("A"), T("D")))),
+        "g_second_nested": cat(T("X"), ("opt", par(alt(cat(T("A"), T("B")), cat(P("1"), T("A"), T("C"))))), T("D")),
+        "g_second_ref": par(alt(cat(T("A"), T("B")), cat(P("1"), ("ref", "y")))),
         "nullable_alt": cat(par(alt(("opt", T("A")), T("B"))), T("A")),
     }
     out = []
@@ -196,7 +223,11 @@ def pred_family():
         for l in G.leaves_of(b):
             if l[0] == "tok" and l[1] not in toks:
                 toks.append(l[1])
-        out.append(G.mk("pred_" + n, toks, [("s", b)]))
+        rules = [("s", b)]
+        if n == "g_second_ref":
+            rules.append(("y", cat(T("A"), T("C"))))
+            toks.append("C")
+        out.append(G.mk("pred_" + n, toks, rules))
     return out
 
 
@@ -297,6 +328,7 @@ def collect(tier, need_recovery=False, big_files=True, max_nodes=None):
     if tier == "quick":
         gens += enumerated(5)
         gens += eps_family(4)
+        gens += epskinds_family(3)
         gens += pratt_family(rng, 250)
         gens += pred_family()
         gens += parts_family()
@@ -304,6 +336,7 @@ def collect(tier, need_recovery=False, big_files=True, max_nodes=None):
     else:
         gens += enumerated(6)
         gens += eps_family(5)
+        gens += epskinds_family(4)
         gens += pratt_family(rng, 2500)
         gens += pred_family()
         gens += parts_family()
